@@ -18,7 +18,7 @@ import (
 // reference interpreter, statement by statement: final value, written output,
 // runtime error class; in both result modes.
 
-const c01Rule = "typed sessions from gen.G (3-10 top-level statements, closures/generators/recursion templates); " +
+const c01Rule = "three in four cases: typed sessions from gen.G (3-10 top-level statements, closures/generators/recursion templates, statement forms as function tails with both outcomes); one in four: the type-blind sessions of C05 (tree generator over every operand kind, or typed sessions with token-level mutations); " +
 	"non-trivial = the session ran on both sides without a domain flag and contains a construct whose code generation depends on context " +
 	"(operator nesting >= 2, index/list/call under an operator, if/while/for/return/yield or a function call); distinct by session text"
 
@@ -33,8 +33,17 @@ func contextDependent(src string) bool {
 
 func c01Prop(rec *ev.Recorder) func(t *rapid.T) {
 	return func(t *rapid.T) {
-		g := &gen.G{T: t, Ill: rapid.SampledFrom([]int{0, 0, 10, 40}).Draw(t, "ill")}
-		stmts := g.Session()
+		var stmts []string
+		family := "typed"
+		if rapid.IntRange(0, 3).Draw(t, "family") == 0 {
+			// type-blind trees: every statement form in every position, over every kind of operand
+			// (the sessions of C05, here compared with the definition instead of only watched for aborts)
+			stmts = genBlindSession(t)
+			family = "blind"
+		} else {
+			g := &gen.G{T: t, Ill: rapid.SampledFrom([]int{0, 0, 10, 40}).Draw(t, "ill")}
+			stmts = g.Session()
+		}
 		discard := rapid.Bool().Draw(t, "discard")
 		text := joinStmts(stmts)
 		o := diffSession(stmts, diffOpts{discard: discard})
@@ -50,7 +59,7 @@ func c01Prop(rec *ev.Recorder) func(t *rapid.T) {
 		if discard {
 			mode = "mode:discard"
 		}
-		rec.Case(text, contextDependent(text), mode, "outcome:"+o.kind)
+		rec.Case(text, contextDependent(text), mode, "outcome:"+o.kind, "family:"+family)
 	}
 }
 
